@@ -202,6 +202,8 @@ def check_chunk(chunk):
                         and item["dst"] == "local":
                     # recorded finding: keyed by cause and transfer kind
                     key = f"C22|cause=directory-into-existing-directory|{kind}"
+                if k == "content" and kind == "remote-remote" and item["dstmode"] == "rename" and item["shape"] == "exec_file":
+                    key = "C22|cause=renamed-single-file-piped-through-tee-loses-its-mode|remote-remote"
                 fails.setdefault(key, (key, f"{pair} {item}: {m}", {"items": [item]}))
     finally:
         loop.close()
